@@ -1,6 +1,8 @@
 """C16 The checksum is CRC-16/ARC for every input (proof: K8 + fold recogniser)."""
-from .. import cast, bitdom
+from .. import cast, bitdom, sym
 from ..bitdom import BV, Ptr, ZERO, ONE, TOP, Unsupported, bxor
+from ..sym import fmt, linearize as L
+from ..lin import Lin
 
 UNIT = 'src/crc-16-arc.c'
 POLY_REFLECTED = 0xA001     # x^16+x^15+x^2+1 (0x8005) bit-reversed
@@ -55,119 +57,312 @@ def is_ref(n, decl_id):
     return cast.kind(n) == 'DeclRefExpr' and n['referencedDecl']['id'] == decl_id
 
 
-def fold_check(ck, u, name, host_big, tag):
-    """accumulator loop == left fold of crc16_octet over the memory image"""
+FOLD_FNS = ('ufw_crc16_arc', 'ufw_crc16_arc_u16')     # (crc, pointer, count) folds decided by this rule
+
+
+class Shape(Exception):
+    """construct the fold rule does not know -> BROKEN"""
+
+
+def strip_cast(t):
+    while t is not None and t[0] == 'cast':
+        t = t[2]
+    return t
+
+
+def fold_check(ck, u, eng, name, host_big, tag, proved):
+    """Decides `name(crc, p, n) == left fold of crc16_octet over the first n*unit octets at p, in
+    address order` as an inductive invariant over the path engine's loop abstraction:
+
+      folded(K): the accumulator equals Fold(crc, p[0..K))      (K in octets)
+      base   : at loop entry the accumulator is the crc parameter (K = 0) or the result of an
+               already decided fold started from it at p (K = unit_g * count_g); the cursor is at
+               p + K and  K + remaining*unit == n*unit
+      step   : one iteration feeds exactly the `unit` octets at the cursor, lowest address first,
+               each step seeded by the previous result; cursor +1 element, remaining -1
+      exit   : the loop is left only with remaining == 0 and the accumulator is returned."""
     rule = 'C16.fold'
+    key = name + tag
     f = u.fn(name)
     if f is None:
-        return ck.broken(rule, name + tag, '', 'function missing')
+        return ck.broken(rule, key, '', 'function missing')
     where = cast.where(f)
     ck.function(name)
     params = u.params(name)
     if len(params) != 3:
-        return ck.broken(rule, name + tag, where, 'expected (crc, buffer, count)')
-    p_crc, p_buf, p_n = params
-    elem = bitdom.type_info(bitdom.resolve_typedefs(u, cast.qual_type(p_buf)))
-    body = u.body(name)
-    stmts = [s for s in cast.inner(body)]
-    cursor = p_buf['id']
-    cursor_elem = None
-    loop = None
-    ret = None
-    for s in stmts:
-        k = cast.kind(s)
-        if k == 'DeclStmt':
-            for d in cast.inner(s):
-                init = d.get('inner', [None])[0]
-                if init is not None and is_ref(init, p_buf['id']):
-                    cursor = d['id']
-                    cursor_elem = bitdom.type_info(bitdom.resolve_typedefs(u, cast.qual_type(d)))
-                else:
-                    return ck.broken(rule, name + tag, where, 'unrecognised local %s' % d.get('name'))
-        elif k in ('WhileStmt', 'ForStmt'):
-            if loop is not None:
-                return ck.broken(rule, name + tag, where, 'more than one loop')
-            loop = s
-        elif k == 'ReturnStmt':
-            ret = s
-        else:
-            return ck.broken(rule, name + tag, where, 'unrecognised statement %s' % k)
-    if loop is None or ret is None:
-        return ck.broken(rule, name + tag, where, 'no loop/return')
-    if cursor_elem is None:
-        cursor_elem = elem
-    if cast.kind(loop) != 'WhileStmt':
-        return ck.broken(rule, name + tag, where, 'loop form not recognised')
-    cond, lbody = loop['inner'][0], loop['inner'][1]
-    c = cast.strip_all_casts(cond)
-    ok_cond = False
-    if cast.kind(c) == 'BinaryOperator' and c['opcode'] in ('>', '!='):
-        ok_cond = is_ref(c['inner'][0], p_n['id']) and u.const_value(c['inner'][1]) == 0
-    elif is_ref(c, p_n['id']):
-        ok_cond = True
-    if not ok_cond:
-        return ck.violation(rule, name + tag, where, 'loop does not run while the count is non-zero')
-    steps = []          # data argument nodes in order
-    cursor_inc = 0
-    count_dec = 0
-    for s in cast.inner(lbody):
-        s0 = cast.strip(s)
-        k = cast.kind(s0)
-        if k == 'BinaryOperator' and s0['opcode'] == '=' and is_ref(s0['inner'][0], p_crc['id']):
-            call = cast.strip_all_casts(s0['inner'][1])
-            if cast.kind(call) != 'CallExpr' or cast.callee_name(call) != 'crc16_octet':
-                return ck.violation(rule, name + tag, cast.where(s0), 'accumulator updated by something other than crc16_octet')
-            if not is_ref(call['inner'][1], p_crc['id']):
-                return ck.violation(rule, name + tag, cast.where(s0), 'step is not seeded with the running accumulator')
-            steps.append((call['inner'][2], bool(cursor_inc)))
-        elif k == 'UnaryOperator' and s0['opcode'] in ('++', '--'):
-            tgt = s0['inner'][0]
-            if is_ref(tgt, cursor) and s0['opcode'] == '++':
-                cursor_inc += 1
-            elif is_ref(tgt, p_n['id']) and s0['opcode'] == '--':
-                count_dec += 1
-            else:
-                return ck.violation(rule, name + tag, cast.where(s0), 'unexpected %s' % s0['opcode'])
-        else:
-            return ck.broken(rule, name + tag, cast.where(s0), 'unrecognised loop statement')
-    if cursor_inc != 1 or count_dec != 1:
-        return ck.violation(rule, name + tag, where,
-                            'per iteration cursor advances %d times, count decreases %d times (expected 1/1)'
-                            % (cursor_inc, count_dec))
-    if any(after for _, after in steps):
-        return ck.violation(rule, name + tag, where, 'datum read after the cursor moved')
-    if not is_ref(ret['inner'][0], p_crc['id']):
-        return ck.violation(rule, name + tag, where, 'does not return the accumulator')
-    # which octets of the element does each step feed?
-    ew = cursor_elem[1] * 8 if cursor_elem and cursor_elem[0] == 'ptr' else 8
-    lanes = []
-    ip = bitdom.Interp(u, big_endian=host_big)
-    for arg, _ in steps:
-        fr = bitdom.Frame(ip, name, 0)
-        # bind cursor to parameter memory
-        decl = u.by_id[cursor]
-        fr.objs[cursor] = {'ptr': Ptr(('param', 'buf'), 0, ew // 8)}
-        try:
-            v = fr.rvalue(arg)
-        except Unsupported as e:
-            return ck.broken(rule, name + tag, cast.where(arg), 'datum expression outside bit domain: %s' % e)
-        v8 = v.convert(8, False)
-        # value bits of the element -> memory octet index under host endianness
-        lane = None
-        nb = ew // 8
-        for byte in range(nb):
-            exp = [(0, frozenset(['buf[%d].%d' % (byte, b)])) for b in range(8)]
-            if list(v8.bits) == exp:
-                lane = byte
-        if lane is None:
-            return ck.violation(rule, name + tag, cast.where(arg), 'datum is not one octet of the current element: %r' % (v8,))
-        lanes.append(lane)
-    want = list(range(ew // 8))
-    ok = lanes == want
-    return ck.verdict(ok, rule, name + tag, where,
-                      ('accumulator := crc16_octet(acc, octet) for memory octets %s of each element in '
-                       'address order; cursor +1, count -1 per iteration; returns acc => concatenation law' % lanes)
-                      if ok else 'feeds memory octets %s of each element, memory order is %s' % (lanes, want))
+        return ck.broken(rule, key, where, 'expected (crc, buffer, count)')
+    crc_p, buf_p, n_p = (('v', q['name']) for q in params)
+
+    def elem(qt):
+        ti = bitdom.type_info(bitdom.resolve_typedefs(u, qt or ''))
+        if not ti or ti[0] != 'ptr':
+            raise Shape('not a pointer type: %r' % qt)
+        return ti[1]
+    unit = elem(cast.qual_type(params[1]))
+
+    def ptr_elem(t):
+        if t[0] == 'cast':
+            return elem(t[1]) if '*' in t[1] else ptr_elem(t[2])
+        if t[0] in ('+', '-'):
+            return ptr_elem(t[1])
+        qt = eng.types.get(t)
+        if qt is None:
+            raise Shape('pointer term of unknown type: %s' % fmt(t))
+        return elem(qt)
+
+    def octets_from_buffer(t):
+        """address of pointer term t minus the buffer parameter, in octets (Lin)"""
+        if t == buf_p:
+            return Lin.const(0)
+        if t[0] == 'cast':
+            if '*' not in t[1]:
+                raise Shape('pointer through integer cast: %s' % fmt(t))
+            return octets_from_buffer(t[2])
+        if t[0] == '+':
+            return octets_from_buffer(t[1]) + L(t[2]) * ptr_elem(t[1])
+        if t[0] == '-':
+            return octets_from_buffer(t[1]) - L(t[2]) * ptr_elem(t[1])
+        raise Shape('pointer not derived from the buffer parameter: %s' % fmt(t))
+
+    def folded(t, facts):
+        """K (Lin, octets) such that t == Fold(crc, buffer[0..K)), or a str saying why not"""
+        t = strip_cast(t)
+        if t == crc_p:
+            return Lin.const(0)
+        if t[0] == 'call' and t[1] in FOLD_FNS:
+            if t[1] not in proved and t[1] != name:
+                return '%s is not itself a decided fold' % t[1]
+            a = t[2]
+            k0 = folded(a[0], facts)
+            if isinstance(k0, str):
+                return k0
+            at = octets_from_buffer(a[1])
+            d = at - k0
+            if not (eng.entails(facts, d) and eng.entails(facts, -d)):
+                return ('%s continues at buffer+%s although %s octets have been folded' % (t[1], at, k0))
+            gunit = elem(cast.qual_type(u.params(t[1])[1]))
+            return k0 + L(a[2]) * gunit
+        return 'accumulator %s is not derived from the crc parameter by folds' % fmt(t)
+
+    try:
+        paths = eng.paths(name)
+    except (sym.Unsupported, sym.PathLimit) as e:
+        return ck.broken(rule, key, where, 'path enumeration: %s' % e)
+    ck.analysed['paths'] = ck.analysed.get('paths', 0) + len(paths)
+    total = L(n_p) * unit
+    bad = None
+    lanes_seen = None
+    ngroups = 0
+
+    def same(facts, d):
+        return eng.entails(facts, d) and eng.entails(facts, -d)
+
+    def lin_subst(l, m):
+        out = Lin.const(l.c)
+        for a, c in l.t.items():
+            out = out + (m[a] * c if a in m else Lin.atom(a) * c)
+        return out
+
+    try:
+        groups = {}
+        for p in paths:
+            if len(p.loops) > 1:
+                raise Shape('more than one loop on a path')
+            if not p.loops:
+                if p.end != 'return':
+                    raise Shape('path without loop does not return')
+                facts = eng.path_facts(p)
+                k = folded(p.ret, facts)
+                if isinstance(k, str):
+                    bad = 'loop-free path returns without folding: %s' % k
+                elif not same(facts, k - total):
+                    bad = 'path %s returns the fold over %s octets, the buffer has %s' % (p.describe(4), k, total)
+                if bad:
+                    break
+                ngroups += 1
+                continue
+            lmap = p.loops[0][1]
+            gid = tuple(sorted((repr(h) for k_, (h, pre) in lmap.items())))
+            groups.setdefault(gid, []).append(p)
+        for gid, ps in ([] if bad else sorted(groups.items())):
+            ngroups += 1
+            lmap = ps[0].loops[0][1]
+            by_h = {h: (k_, pre) for k_, (h, pre) in lmap.items()}
+            heads = set(by_h)
+            iters = [p for p in ps if p.end == 'loopback']
+            exits = [p for p in ps if p.end == 'return']
+            if not iters or not exits or len(iters) + len(exits) != len(ps):
+                raise Shape('loop without iteration/exit path')
+
+            def octets(t):
+                if t in heads:
+                    return Lin.atom(('poff', t))
+                if t == buf_p:
+                    return Lin.const(0)
+                if t[0] == 'cast':
+                    if '*' not in t[1]:
+                        raise Shape('pointer through integer cast: %s' % fmt(t))
+                    return octets(t[2])
+                if t[0] in ('+', '-'):
+                    o = L(t[2]) * ptr_elem(t[1])
+                    return octets(t[1]) + o if t[0] == '+' else octets(t[1]) - o
+                raise Shape('pointer not derived from the buffer parameter: %s' % fmt(t))
+            # ---- step: every iteration feeds cunit octets at Pos, Pos+1, ... --------------------------
+            pos = None
+            cunit = None
+            h_acc = None
+            posts = []
+            inside = set(n.get('id') for n in cast.walk(ps[0].loops[0][0]))
+            for p in iters:
+                eff = [e for e in p.effects if e.node is not None and e.node.get('id') in inside]
+                steps = [e for e in eff if e.kind == 'call' and e.name == 'crc16_octet']
+                other = [e for e in eff if e.kind in ('call', 'icall') and e.name != 'crc16_octet']
+                if other:
+                    raise Shape('call to %s inside the loop' % other[0].name)
+                if not steps:
+                    raise Shape('iteration without crc16_octet')
+                ha = strip_cast(steps[0].args[0])
+                if ha not in by_h or (h_acc is not None and ha != h_acc):
+                    bad = 'first step of an iteration (%s) is seeded with %s, not with the running accumulator' % (steps[0].where(), fmt(steps[0].args[0]))
+                    break
+                h_acc = ha
+                prev = h_acc
+                at = []
+                for e in steps:
+                    if strip_cast(e.args[0]) != prev:
+                        bad = 'step at %s is seeded with %s, not with the previous result' % (e.where(), fmt(e.args[0]))
+                        break
+                    prev = e.result
+                    loads = set(t for t in sym.subterms(e.args[1]) if t[0] in ('i', '*'))
+                    if len(loads) != 1:
+                        raise Shape('datum %s is not one memory load' % fmt(e.args[1]))
+                    ld = loads.pop()
+                    addr = sym.add(ld[1], ld[2]) if ld[0] == 'i' else ld[1]
+                    w = ptr_elem(ld[1])
+                    try:
+                        v8 = bitdom.term_bits(e.args[1], {ld: ('elem', w * 8, False)}, 64).convert(8, False)
+                    except Unsupported as ex:
+                        raise Shape('datum outside the bit domain: %s' % ex)
+                    lane = None
+                    for byte in range(w):
+                        vl = (w - 1 - byte) if host_big else byte        # value lane held at memory octet `byte`
+                        if list(v8.bits) == [(0, frozenset(['elem.%d' % (8 * vl + b)])) for b in range(8)]:
+                            lane = byte
+                    if lane is None:
+                        bad = 'datum at %s is not one octet of the element it loads: %s' % (e.where(), fmt(e.args[1]))
+                        break
+                    at.append(octets(addr) + lane)
+                if bad:
+                    break
+                facts = eng.path_facts(p)
+                if pos is None:
+                    pos, cunit = at[0], len(at)
+                for i, a in enumerate(at):
+                    if not same(facts, a - pos - i) or len(at) != cunit:
+                        bad = ('iteration at %s feeds the octets at %s; address order from the loop position is %s'
+                               % (steps[0].where(), ', '.join(str(x) for x in at), ', '.join(str(pos + k_) for k_ in range(len(at)))))
+                        break
+                if bad:
+                    break
+                acc_key = by_h[h_acc][0]
+                if strip_cast(p.mem.get(acc_key, h_acc)) != prev:
+                    bad = 'accumulator after an iteration is %s, not the result of the last step' % fmt(p.mem.get(acc_key, h_acc))
+                    break
+                post = {}
+                for h, (k_, pre) in by_h.items():
+                    v = p.mem.get(k_, h)
+                    if eng.pointer(h) or '*' in (eng.types.get(k_) or ''):
+                        post[('poff', h)] = octets(v)
+                    elif h != h_acc:
+                        post[h] = L(v)
+                posts.append((p, facts, post))
+                if not same(facts, lin_subst(pos, post) - pos - cunit):
+                    bad = ('after an iteration that fed %d octet(s) the position moves from %s to %s'
+                           % (cunit, pos, lin_subst(pos, post)))
+                    break
+                lanes_seen = list(range(cunit))
+            if bad:
+                break
+            # ---- base: what has been folded on entry is exactly what lies before the position ----------
+            pre_m = {}
+            for h, (k_, pre) in by_h.items():
+                if pre is None:
+                    raise Shape('loop variable %s without a pre-loop value' % fmt(k_))
+                if eng.pointer(h) or '*' in (eng.types.get(k_) or ''):
+                    pre_m[('poff', h)] = octets(pre)
+                elif h != h_acc:
+                    pre_m[h] = L(pre)
+            pre_conds = [c for c in ps[0].cond_terms() if not any(sym.contains(c, h) for h in heads)]
+            pf = eng.path_facts(pre_conds)
+            k = folded(by_h[h_acc][1], pf)
+            if isinstance(k, str):
+                bad = 'at loop entry: %s' % k
+                break
+            pos0 = lin_subst(pos, pre_m)
+            if not same(pf, pos0 - k):
+                bad = ('at loop entry %s octets have been folded but the first datum is read at buffer+%s: octets are skipped or fed twice'
+                       % (k, pos0))
+                break
+            # ---- auxiliary invariants (discovered, then proved inductive): Pos + v*cunit == total for a
+            #      countdown variable v, and Pos <= total -------------------------------------------------
+            cands = [('%s + %d*%s == %s' % (pos, cunit, fmt(by_h[h][0]), total), pos + Lin.atom(h) * cunit - total, True)
+                     for h in sorted(heads, key=repr) if h != h_acc and ('poff', h) not in pre_m]
+            cands.append(('%s <= %s' % (pos, total), pos - total, False))
+            invs = []
+            for label, g, is_eq in cands:
+                g0 = lin_subst(g, pre_m)
+                if not (same(pf, g0) if is_eq else eng.entails(pf, g0)):
+                    continue
+                invs.append((label, g, is_eq))
+            changed = True
+            while changed:                      # greatest inductive subset
+                changed = False
+                hyp = []
+                for _, g, is_eq in invs:
+                    hyp += [g, -g] if is_eq else [g]
+                for it in list(invs):
+                    label, g, is_eq = it
+                    for p, facts, post in posts:
+                        g1 = lin_subst(g, post)
+                        okg = same(facts + hyp, g1) if is_eq else eng.entails(facts + hyp, g1)
+                        if not okg:
+                            invs.remove(it)
+                            changed = True
+                            break
+            hyp = []
+            for _, g, is_eq in invs:
+                hyp += [g, -g] if is_eq else [g]
+            # ---- no read beyond the image, and exit only when everything is folded ----------------------
+            for p, facts, post in posts:
+                if not eng.entails(facts + hyp, pos + cunit - total):
+                    bad = ('an iteration reads octets [%s, %s+%d) although only %s octets belong to the buffer '
+                           '(invariants available: %s)' % (pos, pos, cunit, total, '; '.join(l for l, _, _ in invs) or 'none'))
+                    break
+            if bad:
+                break
+            for p in exits:
+                if strip_cast(p.ret) != h_acc:
+                    bad = 'returns %s, which is not the loop accumulator' % fmt(p.ret)
+                    break
+                facts = eng.path_facts(p)
+                if not same(facts + hyp, pos - total):
+                    bad = ('the loop is left (%s) with %s octets folded; not provably all %s octets of the buffer '
+                           '(invariants available: %s)' % (p.describe(3), pos, total, '; '.join(l for l, _, _ in invs) or 'none'))
+                    break
+            if bad:
+                break
+    except Shape as e:
+        return ck.broken(rule, key, where, str(e))
+    if bad is None and ngroups < 1:
+        return ck.broken(rule, key, where, 'no path found')
+    if bad is None:
+        proved.add(name)
+    return ck.verdict(bad is None, rule, key, where,
+                      ('inductive fold invariant holds on %d paths: accumulator := crc16_octet(acc, octet) for memory octets %s of each '
+                       'element in address order; entry state folds exactly the octets before the read position; position advances by the '
+                       'octets fed; left only when position == n*%d => CRC of the whole image and the concatenation law'
+                       % (len(paths), lanes_seen, unit))
+                      if bad is None else bad)
 
 
 def wrapper_check(ck, u, name, target, tag):
@@ -233,8 +428,11 @@ def run_config(ck, variant, tag):
                 ck.violation('C16.step', 'crc16_octet' + tag, cast.where(f), 'step uses a table that is not the CRC-16/ARC table')
             else:
                 ck.broken('C16.step', 'crc16_octet' + tag, cast.where(f), 'outside the bit domain: %s' % e)
-    fold_check(ck, u, 'ufw_crc16_arc', host_big, tag)
-    fold_check(ck, u, 'ufw_crc16_arc_u16', host_big, tag)
+    eng = sym.Engine(u, sizeof=sym.unit_sizeofs(UNIT, u, variant), inline=set())
+    proved = set()
+    # the word variant first: the octet variant may delegate to it (and vice versa on a second pass)
+    fold_check(ck, u, eng, 'ufw_crc16_arc_u16', host_big, tag, proved)
+    fold_check(ck, u, eng, 'ufw_crc16_arc', host_big, tag, proved)
     wrapper_check(ck, u, 'ufw_buffer_crc16_arc', 'ufw_crc16_arc', tag)
     wrapper_check(ck, u, 'ufw_buffer_crc16_arc_u16', 'ufw_crc16_arc_u16', tag)
 
